@@ -20,18 +20,20 @@ LEVEL_TEXT = (
     "min <= max, with every modulus provably positive; random_float stays within [min, max]; a template method of"
     " an abstract source (randint calling an abstract hook) is analysed once per concrete subclass; where the "
     "affine domain cannot express a result (a product of two unknowns) the function is interpreted at a grid of "
-    "concrete bounds and gene values, and a result outside the bounds is a definite counterexample (none found "
-    "decides nothing). (R3) choice indexes within range for every length (affine), and the derived primitives are"
-    " interpreted exhaustively on small models (sa/rules/c18model.py: lists of distinct symbols, self.randint "
-    "taking every value of its range): choice returns an element for every draw and every element for some draw; "
-    "shuffle returns its argument as a permutation, producing each of the n! orders for exactly one draw sequence"
-    " (n <= 4); pop_random removes exactly the element it returns, each element for exactly one draw; "
-    "choice_weighted, on eight weight vectors with zero weights first / last / in the middle and fractional "
-    "weights whose truncations differ (either consistent discretisation is accepted), returns for every draw a "
-    "comparison can distinguish the option whose cumulative interval contains it - never a zero-weight option - "
-    "and, when the quantities are identifiable, draws strictly below the total for every total (affine). (R4) "
-    "NativeRandomSource draws only from a private random.Random(seed). A containment that fails is reported only "
-    "with an attainable witness or when it fails on every model."
+    "concrete bounds and gene values (ints and floats, degenerate intervals min == max included), and a result "
+    "outside the bounds is a definite counterexample (none found decides nothing). (R3) choice indexes within "
+    "range for every length (affine), and the derived primitives are interpreted exhaustively on small models "
+    "(sa/rules/c18model.py: lists of distinct symbols, self.randint taking every value of its range): choice "
+    "returns an element for every draw and every element for some draw; shuffle returns its argument as a "
+    "permutation, producing each of the n! orders for exactly one draw sequence (n <= 4); pop_random removes "
+    "exactly the element it returns, each element for exactly one draw, also from a list holding equal-but-"
+    "distinct objects (removal by position, not by value); choice_weighted, on eight weight vectors with zero "
+    "weights first / last / in the middle and fractional weights whose truncations differ (either consistent "
+    "discretisation is accepted), returns for every draw a comparison can distinguish the option whose cumulative"
+    " interval contains it - never a zero-weight option, leaving the caller's option and weight lists as they "
+    "were - and, when the quantities are identifiable, draws strictly below the total for every total (affine). "
+    "(R4) NativeRandomSource draws only from a private random.Random(seed). A containment that fails is reported "
+    "only with an attainable witness or when it fails on every model."
 )
 
 MAXSIZE = "sys.maxsize"
@@ -549,6 +551,14 @@ def weighted_selection_model(ctx: Ctx, f: FunctionInfo, rule: str) -> None:
                 continue
             if len(draws) != 1:
                 und = und or f"{len(draws)} draws per call: not the modelled single-draw scheme"
+                continue
+            after_w, after_c = env_after.get(weights), env_after.get(choices)
+            if isinstance(after_w, list) and all(isinstance(x, (int, float)) for x in after_w) and after_w != list(ws):
+                bad = bad or (f"weights {ws}: after the call the caller's weight list reads {after_w}: the primitive rewrites its argument, "
+                              f"so the next choice over the same list no longer selects in proportion to the weights given", ws)
+                continue
+            if isinstance(after_c, list) and after_c != list(opts):
+                bad = bad or (f"weights {ws}: after the call the caller's option list reads {after_c!r}: the primitive rewrites its argument", ws)
                 continue
             n += 1
             d = draws[0]
